@@ -9,6 +9,9 @@ use std::time::Instant;
 /// never a violation: hanging is C01's subject, not C11-C13's.
 pub const ITEM_WATCHDOG_S: u64 = 300;
 
+/// Panics of the harness itself while working on an item (index, message): a harness error
+pub static HARNESS_PANICS: Mutex<Vec<(usize, String)>> = Mutex::new(Vec::new());
+
 /// Run `f(i)` for i in 0..n on `threads` workers. `is_failure` marks results after which no
 /// *later* index needs to run (all earlier indices still complete, so the smallest failing
 /// index is found deterministically). Returns results for a prefix-closed set of indices.
@@ -66,7 +69,21 @@ pub fn run_indexed<R: Send, F: Fn(usize) -> R + Sync, G: Fn(&R) -> bool + Sync>(
                     }
                     cur.1.store(t0.elapsed().as_millis() as u64, Ordering::SeqCst);
                     cur.0.store(i + 1, Ordering::SeqCst);
-                    let r = f(i);
+                    let r = match std::panic::catch_unwind(std::panic::AssertUnwindSafe(|| f(i))) {
+                        Ok(r) => r,
+                        Err(p) => {
+                            let msg = if let Some(s) = p.downcast_ref::<&str>() {
+                                (*s).to_owned()
+                            } else if let Some(s) = p.downcast_ref::<String>() {
+                                s.clone()
+                            } else {
+                                "<non-string panic>".to_owned()
+                            };
+                            HARNESS_PANICS.lock().unwrap().push((i, msg));
+                            cur.0.store(0, Ordering::SeqCst);
+                            continue;
+                        }
+                    };
                     cur.0.store(0, Ordering::SeqCst);
                     if is_failure(&r) {
                         stop_at.fetch_min(i, Ordering::SeqCst);
